@@ -27,7 +27,8 @@ Open Scope N_scope.
 Inductive expr :=
 | EIdent (id : N)      (* `xID`  (or `gID` when a function of that name is declared): pure *)
 | ECall (id : N)       (* `xID()` / `gID()`: may throw *)
-| ELit.                (* `1`: pure (the analyzer nevertheless records may_throw) *)
+| ELit                 (* `1`: pure (the analyzer nevertheless records may_throw) *)
+| EThis.               (* `this`: pure, no effect on the analysis *)
 
 Inductive cond :=
 | CTrue                (* `true`, `1`, `!0`  : cast_to_bool = Known(true)  *)
@@ -60,7 +61,8 @@ with stmts :=
 | SCons (s : stmt) (r : stmts)
 with cases :=
 | CNil
-| CCons (cp : N) (is_default : bool) (ft_comment : bool) (body : stmts) (r : cases).
+| CCons (cp : N) (test : option expr) (ft_comment : bool) (body : stmts) (r : cases).
+(* `test`: the expression of `case e:`; `None` = the `default:` clause. *)
 (* `ft_comment`: a "falls through" comment follows the last statement of the case
    (or precedes the next `case`) - the escape hatch of no-fallthrough. *)
 
@@ -178,8 +180,15 @@ with nofn_c (cs : cases) : bool :=
 Definition no_fn_stmtb (p : program) : bool := nofn_l (p_body p).
 Definition no_fn_stmt (p : program) : Prop := no_fn_stmtb p = true.
 
+Definition is_none {A} (o : option A) : bool := match o with None => true | Some _ => false end.
 Fixpoint has_default (cs : cases) : bool :=
-  match cs with CNil => false | CCons _ d _ _ r => d || has_default r end.
+  match cs with CNil => false | CCons _ t _ _ r => is_none t || has_default r end.
+(* some case test is a call (so evaluating the tests may throw) *)
+Fixpoint tests_throw (cs : cases) : bool :=
+  match cs with
+  | CNil => false
+  | CCons _ t _ _ r => match t with Some (ECall _) => true | _ => false end || tests_throw r
+  end.
 
 Definition wfb (p : program) : bool :=
   nodupb (p_start p :: p_pb p :: keys_l (p_body p)) && jump_ok_l jtop (p_body p).
